@@ -87,6 +87,15 @@ Theorem C19_nothing_below_later : forall (R : Type) (cb : callbacks R) (t : node
   ForallOrdPairs (fun a b : event R => ~ strictly_below (ev_path a) (ev_path b)) (events (visit cb t)).
 Proof. exact @visit_children_first_pairs. Qed.
 
+(** Document order: nothing is visited after something that lies later in the
+    document — below any common owner, what hangs off the arguments object
+    comes before what hangs off the body, and what hangs off slot [i] of a
+    list before what hangs off slot [j > i] ([doc_before]). *)
+Theorem C19_document_order : forall (R : Type) (cb : callbacks R) (t : node),
+  wf t = true ->
+  ForallOrdPairs (fun a b : event R => ~ doc_before (ev_path b) (ev_path a)) (events (visit cb t)).
+Proof. exact @visit_document_order. Qed.
+
 (** Non-vacuity: a well-formed tree with an environment (absent optional
     argument, a group argument, a body with a chars node, a math node whose
     body is [None], a macro without arguments object, a specials node with an
@@ -115,6 +124,17 @@ Example C19_nonvacuous :
   /\ wf (NGroup 0 3 text_mode [123%N] [125%N] (Some (NChars 1 2 text_mode [97%N]))) = false.
 Proof. vm_compute. repeat split. Qed.
 
+(** the two order relations are inhabited on the paths of that tree *)
+Example C19_orders_nonvacuous :
+  doc_before [SArgs; SArg 1] [SBody 0] /\ doc_before [SBody 0] [SBody 3; SArgs]
+  /\ strictly_below [SBody 3] [SBody 3; SArgs].
+Proof.
+  split; [|split].
+  - exists [], SArgs, (SBody 0), [SArg 1], []. repeat split.
+  - exists [], (SBody 0), (SBody 3), [], [SArgs]. repeat split. cbn. auto with arith.
+  - exists SArgs, []. reflexivity.
+Qed.
+
 Print Assumptions C19_postorder.
 Print Assumptions C19_returns_root_result.
 Print Assumptions C19_raises_iff_illformed.
@@ -124,3 +144,4 @@ Print Assumptions C19_children_results.
 Print Assumptions C19_slots_in_order.
 Print Assumptions C19_children_first.
 Print Assumptions C19_nothing_below_later.
+Print Assumptions C19_document_order.
